@@ -181,6 +181,12 @@ type Instance struct {
 	// post-processor contributes its definition (DefinitionRegistry.RegisterMeta) during the
 	// scanning phase. Only for types without points / configuration fields.
 	Contributed bool `json:"contributed,omitempty"`
+	// Preset: before Run the application itself has put an object of its own (not a registered
+	// component) into every optional single-valued point of the instance that cannot be
+	// satisfied; the container must leave such a field untouched.
+	Preset bool `json:"preset,omitempty"`
+	// Prefilled: before Run the instance's slice points already hold one of their candidates.
+	Prefilled bool `json:"prefilled,omitempty"`
 	// SetKey / SetVal: from inside its Init / AfterPropertiesSet callback the instance changes
 	// the configuration (Configure.Set(SetKey, SetVal)): components created later see the new value.
 	SetKey string `json:"setKey,omitempty"`
@@ -299,4 +305,15 @@ func SortedKeys[V any](m map[string]V) []string {
 	}
 	sort.Strings(ks)
 	return ks
+}
+
+// ByNameCount is the number of instances registered under the name.
+func (p *Program) ByNameCount(name string) int {
+	n := 0
+	for _, i := range p.Instances {
+		if p.NameOf(i) == name {
+			n++
+		}
+	}
+	return n
 }
